@@ -930,4 +930,99 @@ example : (lrun witnessMoved).map (·.names) =
 example : slotOf ((codeTbl {}).map (fun n => (n, GVal.unbound))) (.act 0) = some 8 ∧
     slotOf ((codeTbl { fills := 1 }).map (fun n => (n, GVal.unbound))) (.act 0) = some 9 := by decide
 
+/-! ## Host DATA globals converted by copy (round 6)
+
+All histories of `RunCode` invocations (any length), any Go data the host constructs the VM with
+or hands in later with `WithGlobals`, any in-place updates by the scripts, however each run ends. -/
+
+/-- **One step**: from ANY state of the VM (whatever earlier invocations did to their copies of
+    the host's data), a `RunCode` sees - and leaves for the host to read - exactly what the same
+    invocation sees on a fresh VM constructed with the host's current Go data; and the host's Go
+    data changes only by the host's own `WithGlobals`. -/
+theorem C07_data_step (s : DSt) (v : DInv) :
+    (dRunCode s v).2 = dSpecAt s.input v ∧ (dRunCode s v).1.input = v.give.getD s.input := by
+  cases hv : v.give <;> simp [dRunCode, dSpecAt, dApplyOptions, dNew, hv]
+
+/-- the scripts never reach the host's Go data: after any history `vm.inputGlobals` is what the
+    host supplied last (invariant between invocations). -/
+theorem C07_data_host_untouched (d0 : DVal) (h : List DInv) :
+    (dAfter d0 h).input = dCurrent d0 h := by
+  unfold dAfter dCurrent
+  have key : ∀ (h : List DInv) (s : DSt),
+      (dAfterFrom s h).input = h.foldl (fun d v => v.give.getD d) s.input := by
+    intro h
+    induction h with
+    | nil => intro s; rfl
+    | cons v rest ih =>
+      intro s
+      show (dAfterFrom (dRunCode s v).1 rest).input = _
+      rw [ih, (C07_data_step s v).2]
+      rfl
+  exact key h (dNew d0)
+
+/-- **The property for data globals, all histories**: after ANY history `h` on the VM, the
+    invocation `v` sees what it sees on a fresh VM constructed with the host's current data. -/
+theorem C07_data_after_any_history (d0 : DVal) (h : List DInv) (v : DInv) :
+    (dRunCode (dAfter d0 h) v).2 = dSpecAt (dCurrent d0 h) v := by
+  rw [(C07_data_step _ v).1, C07_data_host_untouched]
+
+/-- … hence two VMs with different pasts whose hosts hold the same Go data now agree on every
+    next invocation: the outcome depends on the code and the host-supplied globals only. -/
+theorem C07_data_independent_of_history (d0 d0' : DVal) (h h' : List DInv) (v : DInv)
+    (hcur : dCurrent d0 h = dCurrent d0' h') :
+    (dRunCode (dAfter d0 h) v).2 = (dRunCode (dAfter d0' h') v).2 := by
+  rw [C07_data_after_any_history, C07_data_after_any_history, hcur]
+
+/-- the same, as lists: what the invocations of a history see one after the other on ONE VM is
+    what the Spec demands for each of them. -/
+theorem C07_data_full (d0 : DVal) (h : List DInv) : dRun d0 h = dSpecFrom d0 h := by
+  unfold dRun
+  have key : ∀ (h : List DInv) (s : DSt), dRunFrom s h = dSpecFrom s.input h := by
+    intro h
+    induction h with
+    | nil => intro s; rfl
+    | cons v rest ih =>
+      intro s
+      show (dRunCode s v).2 :: dRunFrom (dRunCode s v).1 rest = dSpecAt s.input v :: dSpecFrom (v.give.getD s.input) rest
+      rw [ih, (C07_data_step s v).1, (C07_data_step s v).2]
+  exact key h (dNew d0)
+
+/-- a `RunCode` without `WithGlobals` starts from the host's data as constructed, whatever the
+    scripts before it did: `data` has the host's elements followed by the own appends only. -/
+theorem C07_data_no_options_sees_host_data (d0 : DVal) (h : List DInv) (ops : List DOp)
+    (hno : ∀ v ∈ h, v.give = none) :
+    (dRunCode (dAfter d0 h) { ops := ops }).2 = dApplyAll d0 ops := by
+  rw [C07_data_after_any_history]
+  have : dCurrent d0 h = d0 := by
+    unfold dCurrent
+    induction h with
+    | nil => rfl
+    | cons v rest ih =>
+      have hv := hno v (List.mem_cons_self)
+      show rest.foldl _ (v.give.getD d0) = d0
+      rw [hv]
+      exact ih (fun w hw => hno w (List.mem_cons_of_mem _ hw))
+  rw [this]
+  rfl
+
+/-- two invocations of one script (`data.append(1)`, `cfg["n"]` decremented) without options -/
+def witnessData : List DInv := [{ ops := [.app 1, .dec] }, { ops := [.app 1, .dec] }]
+
+/-- **The forbidden variant is not independent of the VM's history** (contrast): when the
+    conversion is repeated only if `WithGlobals` was among the options, the second invocation sees
+    the first one's updates (`[7, 1, 1]`, 1 instead of `[7, 1]`, 2); with the option handed in
+    again it agrees with the code as it is. -/
+theorem dirtyFlag_depends_on_history :
+    dRunDirtyFrom (dNew { items := [7], ctr := 3 }) witnessData =
+      [{ items := [7, 1], ctr := 2 }, { items := [7, 1, 1], ctr := 1 }] ∧
+    dRun { items := [7], ctr := 3 } witnessData =
+      [{ items := [7, 1], ctr := 2 }, { items := [7, 1], ctr := 2 }] ∧
+    dRunDirtyFrom (dNew { items := [7], ctr := 3 })
+        (witnessData.map (fun v => { v with give := some { items := [7], ctr := 3 } })) =
+      [{ items := [7, 1], ctr := 2 }, { items := [7, 1], ctr := 2 }] := by
+  decide
+
+example : dRun {} [{ give := some { items := [1] }, ops := [.app 2] }, { ops := [.dec] }] =
+    [{ items := [1, 2] }, { items := [1], ctr := -1 }] := by decide
+
 end Risor.C07
